@@ -23,6 +23,7 @@ Decided:
    '=' promotion, then '#' or '+'; castling as O-O / O-O-O.
 Not decided: canonical PGN form, minimal disambiguation and reader/writer inverse as behaviour
 (whole-position facts); the capture mark and check suffix in the text are ignored by the reader."""
+import os
 from .. import sym, lift, panics, setalg
 from . import movegen
 from .movegen import PIECE, FILE
@@ -410,6 +411,7 @@ def check_san_writer(ctx, f, L):
             ctx.check(okm, "san-write:mate-from-no-moves", "the mate flag is not derived from generate_moves(|_| true) on the successor", where)
     ctx.floor("display_san_move paths", n, 8)
     check_capture_mark(ctx, f, L, ps, where)
+    check_disambiguation_table(ctx, f, L, ps, where, capture_field(f, L))
     ctx.rule("san-writer")
     # castle squares: every use of a right's file other than the presence test is the comparison
     # `mv.to == (right's file, mover's back rank)`; both wings must occur
@@ -507,6 +509,232 @@ def capture_field(f, L):
                 stats.setdefault(e[2], set()).add((bool(c[1]), "x" in seq))
     hits = [n for n, st in stats.items() if st == {(True, True), (False, False)}]
     return hits[0] if len(hits) == 1 else None
+
+
+def check_disambiguation_table(ctx, f, L, ps, where, capf):
+    """minimal disambiguation: which of origin file / origin rank are printed, as a function of what the scan over the
+    other same-kind origins found.  The listener's captured flags are given their meaning from the listener's own paths
+    (each flag moves to one constant exactly on the batches satisfying one of: another origin reaches `to` [A]; such an
+    origin on the mover's file [Fc]; on the mover's rank [Rc]); the function's decisions on the flags after the scan, on
+    `the piece is a pawn` [K] and on the capture flag [C] then give (file printed, rank printed) for every combination,
+    which must be  file = A & (!Fc | Rc) | K & C,  rank = A & Fc  (the file if that settles it, else the rank, else both;
+    a capturing pawn always names its file).  The rule applies to scans that keep Boolean flags; a scan that collects
+    the rival origins some other way is not read (noted, no verdict)."""
+    import itertools
+    ctx.rule("san-writer.disambiguation-table")
+    MV = ("param", "mv")
+    TO, FROM = ("field", MV, "to"), ("field", MV, "from")
+    MOVED = {("call", "core::option::Option<T>::unwrap", (("piece_on", BOARD, FROM),)),
+             ("field", ("downcast", ("piece_on", BOARD, FROM), "Some"), "0"), ("param", "piece")}
+    PAWN = ("enum", PIECE, "Pawn")
+    kinds_ = [x_["name"] for x_ in f.adts[PIECE]["variants"]]
+    gmn = B + "::generate_moves_for"
+    recs = []
+    for p in ps:
+        if p.end != "return" or p.ret[0] != "agg":
+            continue
+        gms = [e for e in p.events if e.kind == "call" and e.name == gmn and len(e.args) > 2 and e.args[2][0] == "closure"]
+        if len(gms) == 1:
+            recs.append((p, gms[0]))
+    if not recs:
+        ctx.note("SAN writer: no result path runs a single disambiguation scan; the disambiguation table is not read")
+        return
+    # ---- 1. what each flag means, from the listener
+    p0, g0 = recs[0]
+    caps = g0.args[2][2]
+    mut = [i for i, c_ in enumerate(caps) if c_[0] == "ptr" and c_[3]]
+    cb, cps = run_closure_in_context(f, g0.args[2], p0.store)
+    okm = cb is not None and cb.argc >= 2 and len(mut) == 3
+    meaning = {}
+    if okm:
+        batch = ("param", cb.local_name(2))
+        BF, BT = ("field", batch, "from"), ("field", batch, "to")
+
+        def latom(e):
+            if e[0] == "bin" and e[1] in ("Eq", "Ne"):
+                s_ = {e[2], e[3]}
+                pos = e[1] == "Eq"
+                if s_ == {FROM, BF}:
+                    return ("N", not pos)
+                if s_ == {("file", FROM), ("file", BF)}:
+                    return ("Fe", pos)
+                if s_ == {("rank", FROM), ("rank", BF)}:
+                    return ("Re", pos)
+            if e[0] == "has" and e[1] == BT and e[2] == TO:
+                return ("H", True)
+            return None
+        ASG = list(itertools.product((False, True), repeat=4))
+        written = {i: {} for i in mut}
+        entry = {i: (p0.store.get(caps[i][1]) if not caps[i][2] else None) for i in mut}
+
+        def wval(v, m_, old):
+            """what a stored value is under the batch assignment m_: True / False / 'same' (the flag as it was) / None"""
+            if v == sym.TRUE:
+                return True
+            if v == sym.FALSE:
+                return False
+            if v == old:
+                return "same"
+            a_ = latom(L.lift(v))
+            if a_ is not None:
+                return m_[a_[0]] == a_[1]
+            if v[0] == "un" and v[1] == "Not":
+                x = wval(v[2], m_, old)
+                return (not x) if isinstance(x, bool) else None
+            if v[0] == "bin" and v[1] in ("BitOr", "BitAnd"):
+                x, y = wval(v[2], m_, old), wval(v[3], m_, old)
+                dom, neu = (True, False) if v[1] == "BitOr" else (False, True)
+                if x is dom or y is dom:
+                    return dom
+                if x is neu:
+                    return y
+                if y is neu:
+                    return x
+            return None
+        for q in cps:
+            if q.end != "return":
+                okm = False
+                break
+            lits = {}
+            for c_ in q.conds:
+                a_ = latom(L.lift(c_[0]))
+                if a_ is None or not isinstance(c_[1], int):
+                    okm = False
+                    break
+                lits[a_[0]] = (a_[1] == bool(c_[1]))
+            for asg in ASG:
+                m_ = dict(zip(("N", "H", "Fe", "Re"), asg))
+                if any(m_[k_] != v_ for k_, v_ in lits.items()):
+                    continue
+                for i in mut:
+                    v_ = q.store.get(("U", i))
+                    w_ = "same" if v_ is None else wval(v_, m_, entry[i])
+                    if w_ is None:
+                        okm = False
+                    elif w_ != "same":
+                        written[i][asg] = w_
+        sets = {"A": {a_ for a_ in ASG if a_[0] and a_[1]}, "Fc": {a_ for a_ in ASG if a_[0] and a_[1] and a_[2]}, "Rc": {a_ for a_ in ASG if a_[0] and a_[1] and a_[3]}}
+        for i in mut:
+            consts = set(written[i].values())
+            for kn, st_ in sets.items():
+                if len(consts) == 1 and set(written[i]) == st_:
+                    meaning[i] = (kn, next(iter(consts)))
+    if not (okm and sorted(k_ for k_, c_ in meaning.values()) == ["A", "Fc", "Rc"]):
+        ctx.note("SAN writer: the disambiguation scan does not keep three Boolean flags (another origin reaches the destination / one on the mover's "
+                 "file / one on its rank); the disambiguation table is not read (%s)" % {i: meaning.get(i) for i in mut})
+        return
+    # ---- 2. the two optional origin coordinates of the result
+    def names_with(tail):
+        out = set()
+        for p, g in recs:
+            for n_, v_ in dict(p.ret[4]).items():
+                if v_[0] == "agg" and v_[2] == "Some" and dict(v_[4]).get("0") == ("call", T_ + tail, (FROM,)):
+                    out.add(n_)
+        return out
+    T_ = "cozy_chess_types::square::Square::"
+    ffs, rfs = names_with("file"), names_with("rank")
+    if len(ffs) != 1 or len(rfs) != 1:
+        ctx.note("SAN writer: the result does not carry one optional origin file and one optional origin rank (%s, %s); the disambiguation table is not read" % (sorted(ffs), sorted(rfs)))
+        return
+    FF, RF = next(iter(ffs)), next(iter(rfs))
+
+    def presence(v):
+        return True if (v[0] == "agg" and v[2] == "Some") else (False if (v[0] == "agg" and v[2] == "None") else None)
+    # ---- 3. the table
+    bad = None
+    for A, Fc, Rc, K, C in itertools.product((False, True), repeat=5):
+        if ((Fc or Rc) and not A) or (K and C and Fc):
+            continue                    # (two pawns capturing onto one square stand on different files)
+        val = {"A": A, "Fc": Fc, "Rc": Rc}
+        want = ((A and (not Fc or Rc)) or (K and C), A and Fc)
+        for p, g in recs:
+            fields = dict(p.ret[4])
+            capv = L.lift(fields[capf]) if capf in fields else None
+            init = {ci: v0 for (ai, ci), v0 in (g.extra.get("captured") or {}).items() if ai == 2}
+            post = {("post", gmn, g.idx, j): i for j, i in enumerate(mut)}
+
+            def ev(e):
+                """value of a Boolean expression under the combination, None when it does not follow from it"""
+                if e == sym.TRUE:
+                    return True
+                if e == sym.FALSE:
+                    return False
+                if e in post:
+                    i = post[e]
+                    kn, const = meaning[i]
+                    if init.get(i) not in (sym.TRUE, sym.FALSE):
+                        raise _NotRead("a flag does not start the scan with a constant")
+                    return const if val[kn] else (init[i] == sym.TRUE)
+                le_ = L.lift(e)
+                if capv is not None and capv not in (sym.TRUE, sym.FALSE) and le_ == capv:
+                    return C
+                if le_[0] == "bin" and le_[1] in ("Eq", "Ne") and (le_[2] in MOVED or le_[3] in MOVED) and (le_[3] if le_[2] in MOVED else le_[2])[0] == "enum":
+                    other_ = le_[3] if le_[2] in MOVED else le_[2]
+                    if other_ == PAWN:
+                        return K == (le_[1] == "Eq")
+                    if K:
+                        return le_[1] == "Ne"          # a pawn is no other kind
+                    return None
+                if e[0] == "un" and e[1] == "Not":
+                    x = ev(e[2])
+                    return None if x is None else not x
+                if e[0] == "bin" and e[1] in ("BitOr", "BitAnd"):
+                    x, y = ev(e[2]), ev(e[3])
+                    dom = e[1] == "BitOr"
+                    if x is dom or y is dom:
+                        return dom
+                    if x is None or y is None:
+                        return None
+                    return (x or y) if dom else (x and y)
+                if e[0] == "bin" and e[1] in ("Eq", "Ne", "BitXor"):
+                    x, y = ev(e[2]), ev(e[3])
+                    if x is None or y is None:
+                        return None
+                    return (x == y) if e[1] == "Eq" else (x != y)
+                return None
+            cons = True
+            try:
+                for c_ in p.conds:
+                    e_, v_ = c_[0], c_[1]
+                    about_flags = sym.contains(e_, lambda y: y in post)
+                    if not isinstance(v_, int):
+                        le_ = L.lift(e_)
+                        if le_[0] == "discr" and le_[1] in MOVED and K and kinds_.index("Pawn") in v_[1]:
+                            cons = False
+                        if about_flags:
+                            raise _NotRead("a switch on a flag")
+                        continue
+                    le_ = L.lift(e_)
+                    if le_[0] == "discr" and le_[1] in MOVED:
+                        cons = cons and ((0 <= v_ < len(kinds_) and kinds_[v_] == "Pawn") == K)
+                        continue
+                    x = ev(e_)
+                    if x is None:
+                        if about_flags:
+                            raise _NotRead("a decision on a flag together with something else: %s" % sym.show(le_)[:100])
+                        continue
+                    cons = cons and (x == bool(v_))
+                if capv in (sym.TRUE, sym.FALSE):
+                    cons = cons and ((capv == sym.TRUE) == C)
+                if not cons:
+                    continue
+                got = (presence(fields[FF]), presence(fields[RF]))
+                if None in got:
+                    raise _NotRead("the origin file / rank of the result is not Some(..) or None on a path")
+            except _NotRead as ex:
+                ctx.note("SAN writer: the disambiguation table is not read (%s)" % ex)
+                return
+            if got != want and bad is None:
+                if os.environ.get("CVA_DEBUG_SAN"):
+                    print("BADPATH", [(sym.show(L.lift(c_[0]))[:90], c_[1]) for c_ in p.conds])
+                bad = ("another origin reaches the destination: %s, one on the mover's file: %s, one on its rank: %s, pawn: %s, capture: %s -> file printed: %s, rank printed: %s (canonical: %s, %s)"
+                       % (A, Fc, Rc, K, C, got[0], got[1], want[0], want[1]))
+    ctx.check(bad is None, "san-write:disambiguation-table:minimal", "the origin coordinates printed are not the minimal disambiguation: %s" % bad, where,
+              sample={"table": "file = A & (!Fc | Rc) | pawn capture; rank = A & Fc", "paths": len(recs), "flags": {str(i): meaning[i] for i in mut}})
+
+
+class _NotRead(Exception):
+    pass
 
 
 def check_capture_mark(ctx, f, L, ps, where):
